@@ -98,6 +98,18 @@ def fam_resume(maxres):
     return out
 
 
+def fam_highstack():
+    """values left by the pre-executed prefix on selected stacks above 3, used again by the residual program"""
+    out = []
+    gadgets = ['형.. 흑....', '형.. 흑....... 형... 흑....', '형.. 흑.... 형... 흑.......', '형.. 형... 흑.... 형. 흑..... 형....']
+    residuals = ['흑.... 항. 항.', '흑....... 항. 항.', '흑.... 항. 흑....... 항.', '흑..... 항. 흑.... 항. 항.', '흑.... 흐읏. 항.']
+    for g in gadgets:
+        for _, t in TRIGGERS:
+            for r in residuals:
+                out.append(' '.join([g, t, r]))
+    return out
+
+
 def fam_chars():
     out = []
     cps = list(range(0, 128)) + [0xE9, 0x301, 0x1F600, 0x7FF, 0xFFFF, 0x10FFFF]
@@ -123,6 +135,17 @@ def fam_labels():
     for (c1, h1) in labs:
         for (c2, h2) in labs:
             out.append('형%s%s 항. 형%s%s 형.... 항.' % ('.' * c1, h1, '.' * c2, h2))
+    return out
+
+
+def fam_redundant_hearts():
+    """slots holding two different hearts: only the first one counts, for the interpreter and for the executable"""
+    out = []
+    for h1, h2 in (('♥', '💕'), ('💕', '♥'), ('♥', '♡'), ('💛', '💝')):
+        for area in (h1 + h2, '?' + h1 + h2, h1 + h2 + '?', '!' + h1 + h2, h1 + h2 + '!' + h2 + h1):
+            for ref in (h1, h2):
+                out.append('형..%s 항. 형..%s 형.... 항.' % (area, ref))
+                out.append('형.. 형..%s 항. 형..%s 형.... 항.' % (ref, area))
     return out
 
 
@@ -345,7 +368,7 @@ def run_c03(tier):
         fams['general'] = fam_general(2, ['', '항. 항.']) + fam_general(3, [''])[::15]
         fams['resume'] = fam_resume(1) + fam_resume(2)[::14]
         fams['chars'] = fam_chars()
-        fams['labels'] = fam_labels() + fam_bigindex()
+        fams['labels'] = fam_labels() + fam_bigindex() + fam_highstack() + fam_redundant_hearts()
         fams['labelflow'] = labelflow_family()[::16]
         standalone = fam_templates()[::12] + fam_chars()[::9] + [g + ' ' + t for _, g in GADGETS for _, t in TRIGGERS][::2]
     else:
@@ -355,7 +378,7 @@ def run_c03(tier):
         fams['general'] = fam_general(3, ['', '항. 항.']) + fam_general(4, [''])[::4]
         fams['resume'] = fam_resume(2) + fam_resume(3)[::6]
         fams['chars'] = fam_chars()
-        fams['labels'] = fam_labels() + fam_bigindex()
+        fams['labels'] = fam_labels() + fam_bigindex() + fam_highstack() + fam_redundant_hearts()
         fams['labelflow'] = labelflow_family()
         standalone = fam_templates() + fam_chars() + fam_resume(1)
     tasks = []
